@@ -20,7 +20,7 @@ ASSUMPTIONS = ["when the same references are merged a second time, non-reference
                "citations survives is not compared (it may depend on input order; see DESIGN.md false alarms)"]
 FLOORS = {
     "quick": {"results_ge3": 1000, "merge_histories": 300, "merge_histories_added_ref": 100,
-              "contract:filter_citations": 3000, "adjacent_pairs": 8000},
+              "contract:filter_citations": 3000, "adjacent_pairs": 8000, "recalls_after_in_place_merge": 1000},
     "thorough": {"results_ge3": 60000, "merge_histories": 20000, "merge_histories_added_ref": 6000,
                  "adjacent_pairs": 500000},
 }
@@ -82,6 +82,7 @@ def merge_history(text, cs, cfg, rec, rng):
     from eyecite.helpers import filter_citations
     from eyecite.models import Document, FullCaseCitation, ReferenceCitation
 
+    first = [(M.kind(c), c.span(), c.full_span()) for c in cs]
     fulls = [c for c in cs if isinstance(c, FullCaseCitation)]
     if not fulls or cfg.get("markup") is not None and not cfg.get("steps"):
         return
@@ -147,6 +148,22 @@ def merge_history(text, cs, cfg, rec, rng):
         rec.violation("C03.remerge_not_idempotent", case,
                       observed=dict(first=[(M.kind(c), c.span()) for c in again2][:30],
                                     second=[(M.kind(c), c.span()) for c in again3][:30]))
+    # history: the caller merges *in place* into the list it was handed (as the library's own tests do) and
+    # then asks for the citations of the same input again: the guarantees hold for that result too, and
+    # it is the result of the first call
+    try:
+        cs.extend(refs)
+        filter_citations(cs)
+        _, second = _extract.rerun(cfg)
+    except Exception as e:
+        rec.count("recall_raised:" + type(e).__name__)
+        return
+    rec.count("recalls_after_in_place_merge")
+    for mon, obs in M.order(second):
+        rec.violation("C03.recall_" + mon.split(".")[1], case,
+                      observed=dict(obs, result=[(M.kind(c), c.span()) for c in second][:30]))
+    if [(M.kind(c), c.span(), c.full_span()) for c in second] != first:
+        rec.violation("C03.recall_differs", case, observed=[(M.kind(c), c.span()) for c in second][:30], expected=first[:30])
 
 
 def run_shard(spec, rec):
